@@ -360,7 +360,60 @@ _V1_SPACE = ("tags {a, b, x-y, android, nota}; an alternative = tag x prefix {no
              "(1 group x 1 alternative) are left to the check auto-one-word. Tags named and/or/not or "
              "containing * ? [ ( ) , : are not in the space")
 
+# -- several configurations in one process: the dialect of an earlier one must not leak ------------------------------------
+def _config_table(protocol_name, tags_args):
+    from behave.configuration import Configuration
+    from behave.tag_expression.builder import TagExpressionProtocol
+    cfg = Configuration(["--tags=%s" % t for t in tags_args], load_config=False,
+                        tag_expression_protocol=TagExpressionProtocol.from_name(protocol_name))
+    universe = ["foo", "bar", "baz"]
+    rows = []
+    for n in range(len(universe) + 1):
+        for sub in itertools.combinations(universe, n):
+            rows.append(bool(cfg.tag_expression.check(list(sub))))
+    return rows
+
+
+def _history_case(case):
+    from behave.tag_expression.builder import TagExpressionProtocol
+    def table(proto, args):
+        try:
+            return _config_table(proto, args)
+        except Exception as e:      # noqa
+            return "%s: %s" % (type(e).__name__, str(e)[:80])
+    try:
+        TagExpressionProtocol.use(TagExpressionProtocol.DEFAULT)
+        alone = table(case["second"][0], case["second"][1])
+        TagExpressionProtocol.use(TagExpressionProtocol.DEFAULT)
+        table(case["first"][0], case["first"][1])
+        after = table(case["second"][0], case["second"][1])
+    finally:
+        TagExpressionProtocol.use(TagExpressionProtocol.DEFAULT)
+    ok = alone == after
+    return case, ok, "second configuration alone: %r; after the first one: %r" % (alone, after)
+
+
+HISTORY_CONFIGS = [("v1", ["@foo", "-@bar"]), ("v1", ["@foo,@bar"]), ("v2", ["not @foo or @bar"]), ("v2", ["@foo and @bar"]),
+                   ("auto_detect", ["not @foo or @bar"]), ("auto_detect", ["@foo", "-@bar"]), ("auto_detect", ["@foo and not @bar"]),
+                   ("auto_detect", ["@foo,@baz"])]
+
+
+def run_config_history(tier, rng):
+    for first in HISTORY_CONFIGS:
+        for second in HISTORY_CONFIGS:
+            yield _history_case({"first": [first[0], list(first[1])], "second": [second[0], list(second[1])]})
+
+
 CHECKS = [
+    BoundedCheck(
+        "configuration-history",
+        bound={"quick": "all 64 ordered pairs of 8 configurations (protocol v1 / v2 / auto_detect x old-style, new-style and mixed "
+                        "--tags arguments) created one after the other in one process; complete truth table over 3 tags",
+               "thorough": "same"},
+        run=run_config_history, replay=_history_case,
+        contract="the truth table of Configuration(...).tag_expression of the second configuration == the table it has when it "
+                 "is the only configuration of the process (the process-wide dialect of an earlier configuration does not leak)"),
+
     BoundedCheck(
         "v1-cnf-truth-tables",
         bound={
